@@ -300,7 +300,9 @@ impl Space for StreamAnyVsFixed {
 }
 
 pub fn build(tier: Tier) -> CheckDef {
-    let mut bases: Vec<Skeleton> = small_shapes().into_iter().filter(|s| s.name.starts_with("shdrs-only")).collect();
+    // header-only files (52 / 64 bytes) first: an ident defect must be named even when nothing follows the header
+    let mut bases: Vec<Skeleton> = small_shapes().into_iter().filter(|s| s.name.starts_with("header-only")).collect();
+    bases.extend(small_shapes().into_iter().filter(|s| s.name.starts_with("shdrs-only")));
     bases.extend(tiny_skeletons().into_iter().filter(|s| s.name.ends_with("linker-order")));
     let mut spaces: Vec<Box<dyn Space>> = vec![Box::new(IdentSweep { bases: bases.clone(), pairs: false })];
     if tier == Tier::Thorough {
